@@ -107,6 +107,9 @@ pub fn serve_and_consume(wire: Vec<u8>, method: &str, url: &str, seg1: bool, how
         if how == "bytes" {
             let v = rp.bytes().map_err(|e| err_kind(&e))?;
             delivered = v.len();
+        } else if how == "text" {
+            let v = rp.text().map_err(|e| err_kind(&e))?;
+            delivered = v.len();
         } else if let Some(n) = how.strip_prefix("reads:") {
             let n: usize = n.parse().unwrap();
             let mut buf = vec![0u8; n.max(1)];
@@ -292,6 +295,16 @@ pub fn run(sc: &Value) -> Vec<String> {
             let o = serve_and_consume(wire, "GET", "https://origin.test/", gb(sc, "seg1"), "bytes", None, Some("http://proxy.test:3128"));
             out.push(event(&id, "refusal-text", &o, wl, base_len, json!({})));
         }
+        // Content-Type values of every shape in front of the text helper (the charset label is parsed out of it)
+        "ctype" => {
+            let v = unhex(gs(sc, "value_hex"));
+            let mut wire = b"HTTP/1.1 200 OK\r\nContent-Type: ".to_vec();
+            wire.extend_from_slice(&v);
+            wire.extend_from_slice(b"\r\nContent-Length: 7\r\n\r\nh\xe9llo \xff");
+            let wl = wire.len();
+            let o = serve_and_consume(wire, "GET", "http://h.test/", gb(sc, "seg1"), "text", None, None);
+            out.push(event(&id, "ctype", &o, wl, 0, json!({})));
+        }
         // a size that is merely declared must not pay for memory
         "declared" => {
             let what = gs(sc, "what");
@@ -396,6 +409,32 @@ pub fn generate(seed: u64, tier: &str) -> Vec<Value> {
                     "code":([403, 407, 502, 301][k % 4]),"declared": k % 2 == 0, "seg1": k % 5 == 0 && total < 2000}));
             }
             k += 1;
+        }
+    }
+    // every short string over the characters that matter to a parameter parser, after "charset=" and on its own
+    let alpha: [&[u8]; 8] = [b"\"", b"'", b"=", b";", b" ", b"a", b"\\", b"utf-8"];
+    let mut strs: Vec<Vec<u8>> = vec![vec![]];
+    let mut layer: Vec<Vec<u8>> = vec![vec![]];
+    for _ in 0..(if thorough { 4 } else { 3 }) {
+        let mut next = Vec::new();
+        for s in &layer {
+            for a in alpha {
+                let mut t = s.clone();
+                t.extend_from_slice(a);
+                next.push(t);
+            }
+        }
+        strs.extend(next.iter().cloned());
+        layer = next;
+    }
+    for (i, s) in strs.iter().enumerate() {
+        for (pi, prefix) in ["text/plain; charset=", "text/html;charset=", "", "x/y; a=b; CHARSET="].iter().enumerate() {
+            if !thorough && (i + pi) % 2 == 1 && s.len() > 2 {
+                continue;
+            }
+            let mut v = prefix.as_bytes().to_vec();
+            v.extend_from_slice(s);
+            out.push(json!({"id":format!("ct-{}-{}", i, pi),"kind":"ctype","value_hex":hex(&v),"seg1": i % 7 == 0}));
         }
     }
     for what in ["content-length", "chunk-size"] {
